@@ -436,7 +436,7 @@ func enumSeqs(n, maxLen int, f func(seq []int) bool) {
 }
 
 func c03Jobs(tier string) []*SeqJob {
-	L := tierInt(tier, 3, 4)
+	L := tierInt(tier, 4, 5)
 	va, da := c03ValueAlphabet(), c03DurationAlphabet()
 	runValue := func(path histPath, idx []int) (string, string, int) {
 		spec := make([]float64, len(idx))
@@ -471,7 +471,7 @@ func c03Jobs(tier string) []*SeqJob {
 	var jobs []*SeqJob
 	for _, kind := range []string{"value", "duration"} {
 		kind := kind
-		job := &SeqJob{Property: "C03", Name: "spec-x-sample-" + kind}
+		job := &SeqJob{Property: "C03", Name: "spec-x-sample-" + kind, Shards: tierInt(tier, 4, 8)}
 		job.Run = func(ctx *SeqCtx) {
 			n := len(va)
 			if kind == "duration" {
